@@ -17,11 +17,11 @@ import (
 func init() { wk.Register("c16", c16) }
 
 type c16item struct {
-	Name    string
-	Content bool // sent with an odd seq_no
+	Name              string
+	Content           bool // sent with an odd seq_no
 	WellFormedService bool
-	build   func(r *rand.Rand, e *rpcEnv, answered pendingReq) []byte
-	raw     func(cn *refserver.Conn) // non-envelope actions (close, transport code)
+	build             func(r *rand.Rand, e *rpcEnv, answered pendingReq) []byte
+	raw               func(cn *refserver.Conn) // non-envelope actions (close, transport code)
 }
 
 func le64i(v int64) []byte { return le64(uint64(v)) }
@@ -39,9 +39,13 @@ func c16catalogue() []c16item {
 	add := func(name string, content, wf bool, f func(r *rand.Rand, e *rpcEnv, a pendingReq) []byte) {
 		items = append(items, c16item{Name: name, Content: content, WellFormedService: wf, build: f})
 	}
-	add("pong", false, true, func(r *rand.Rand, e *rpcEnv, a pendingReq) []byte { return refserver.Pong(int64(r.Uint64()), int64(r.Uint64())) })
+	add("pong", false, true, func(r *rand.Rand, e *rpcEnv, a pendingReq) []byte {
+		return refserver.Pong(int64(r.Uint64()), int64(r.Uint64()))
+	})
 	add("pong-content", true, true, func(r *rand.Rand, e *rpcEnv, a pendingReq) []byte { return refserver.Pong(a.msgID, 7) })
-	add("msgs_ack", false, true, func(r *rand.Rand, e *rpcEnv, a pendingReq) []byte { return refserver.MsgsAck([]int64{a.msgID, int64(r.Uint64())}) })
+	add("msgs_ack", false, true, func(r *rand.Rand, e *rpcEnv, a pendingReq) []byte {
+		return refserver.MsgsAck([]int64{a.msgID, int64(r.Uint64())})
+	})
 	add("msgs_ack-empty", false, true, func(r *rand.Rand, e *rpcEnv, a pendingReq) []byte { return refserver.MsgsAck(nil) })
 	add("new_session_created", true, true, func(r *rand.Rand, e *rpcEnv, a pendingReq) []byte {
 		return refserver.NewSessionCreated(a.msgID, int64(r.Uint64()), e.salt())
@@ -71,8 +75,12 @@ func c16catalogue() []c16item {
 	add("msg_new_detailed_info", false, true, func(r *rand.Rand, e *rpcEnv, a pendingReq) []byte {
 		return append(append(append(le32(0x809db6df), le64i(int64(r.Uint64())|1)...), le32(10)...), le32(0)...)
 	})
-	add("msg_resend_req", false, true, func(r *rand.Rand, e *rpcEnv, a pendingReq) []byte { return append(le32(0x7d861a08), vecLong(a.msgID)...) })
-	add("msgs_state_req", true, true, func(r *rand.Rand, e *rpcEnv, a pendingReq) []byte { return append(le32(0xda69fb52), vecLong(a.msgID)...) })
+	add("msg_resend_req", false, true, func(r *rand.Rand, e *rpcEnv, a pendingReq) []byte {
+		return append(le32(0x7d861a08), vecLong(a.msgID)...)
+	})
+	add("msgs_state_req", true, true, func(r *rand.Rand, e *rpcEnv, a pendingReq) []byte {
+		return append(le32(0xda69fb52), vecLong(a.msgID)...)
+	})
 	add("future_salts", false, true, func(r *rand.Rand, e *rpcEnv, a pendingReq) []byte {
 		b := append(append(le32(0xae500895), le64i(a.msgID)...), le32(1600000000)...)
 		b = append(b, le32(1)...) // bare vector<future_salt>
@@ -103,7 +111,9 @@ func c16catalogue() []c16item {
 		return refserver.RPCResult(int64(r.Uint64())&^3, le32(0x997275b5))
 	})
 	add("rpc_result-repeated", true, false, func(r *rand.Rand, e *rpcEnv, a pendingReq) []byte { return refserver.RPCResult(a.msgID, a.res) })
-	add("rpc_result-repeated-gzip", true, false, func(r *rand.Rand, e *rpcEnv, a pendingReq) []byte { return refserver.Gzip(refserver.RPCResult(a.msgID, a.res)) })
+	add("rpc_result-repeated-gzip", true, false, func(r *rand.Rand, e *rpcEnv, a pendingReq) []byte {
+		return refserver.Gzip(refserver.RPCResult(a.msgID, a.res))
+	})
 	add("rpc_result-vector-unknown-id", true, false, func(r *rand.Rand, e *rpcEnv, a pendingReq) []byte {
 		return refserver.RPCResult(int64(r.Uint64())&^3, append(le32(0x1cb5c415), le32(0)...))
 	})
@@ -120,7 +130,9 @@ func c16catalogue() []c16item {
 	add("empty-body", false, false, func(r *rand.Rand, e *rpcEnv, a pendingReq) []byte { return []byte{} })
 	add("three-bytes", false, false, func(r *rand.Rand, e *rpcEnv, a pendingReq) []byte { return le32(0x347773c5)[:0] })
 	add("empty-container", false, false, func(r *rand.Rand, e *rpcEnv, a pendingReq) []byte { return refserver.Container(nil) })
-	add("container-negative-count", false, false, func(r *rand.Rand, e *rpcEnv, a pendingReq) []byte { return append(le32(0x73f1f8dc), le32(0xffffffff)...) })
+	add("container-negative-count", false, false, func(r *rand.Rand, e *rpcEnv, a pendingReq) []byte {
+		return append(le32(0x73f1f8dc), le32(0xffffffff)...)
+	})
 	add("container-of-service", false, true, func(r *rand.Rand, e *rpcEnv, a pendingReq) []byte {
 		return refserver.Container([]refserver.Out{{MsgID: e.srv.NextMsgID(3), SeqNo: 0, Body: refserver.Pong(1, 2)}, {MsgID: e.srv.NextMsgID(3), SeqNo: 0, Body: refserver.MsgsAck([]int64{a.msgID})}})
 	})
@@ -148,8 +160,12 @@ func c16catalogue() []c16item {
 	})
 	add("gzip-of-pong", false, true, func(r *rand.Rand, e *rpcEnv, a pendingReq) []byte { return refserver.Gzip(refserver.Pong(1, 2)) })
 	add("gzip-of-garbage", true, false, func(r *rand.Rand, e *rpcEnv, a pendingReq) []byte { return refserver.Gzip(rbytes(r, 20)) })
-	add("gzip-bad-stream", true, false, func(r *rand.Rand, e *rpcEnv, a pendingReq) []byte { return append(le32(0x3072cfa1), mtp.TLBytes(rbytes(r, 24))...) })
-	add("gzip-of-gzip-of-update", true, true, func(r *rand.Rand, e *rpcEnv, a pendingReq) []byte { return refserver.Gzip(refserver.Gzip(apiUpdateBody(r))) })
+	add("gzip-bad-stream", true, false, func(r *rand.Rand, e *rpcEnv, a pendingReq) []byte {
+		return append(le32(0x3072cfa1), mtp.TLBytes(rbytes(r, 24))...)
+	})
+	add("gzip-of-gzip-of-update", true, true, func(r *rand.Rand, e *rpcEnv, a pendingReq) []byte {
+		return refserver.Gzip(refserver.Gzip(apiUpdateBody(r)))
+	})
 	// malformed envelopes (sealed under the right key): declared lengths at the integer boundaries, tiny frames
 	for _, dl := range []int32{1<<31 - 1, 1<<31 - 16, -1 << 31, -1} {
 		dl := dl
@@ -178,6 +194,8 @@ func c16catalogue() []c16item {
 	}
 	items = append(items, c16item{Name: "transport-code--404", raw: func(cn *refserver.Conn) { cn.SendRaw(le32(0xfffffe6c)) }})
 	items = append(items, c16item{Name: "transport-code--429", raw: func(cn *refserver.Conn) { cn.SendRaw(le32(0xfffffe53)) }})
+	items = append(items, c16item{Name: "close-with-request-in-flight", raw: func(cn *refserver.Conn) { cn.Close() }})
+	items = append(items, c16item{Name: "close-then-drop-next-connection", raw: func(cn *refserver.Conn) { cn.Close() }})
 	items = append(items, c16item{Name: "close", raw: func(cn *refserver.Conn) { cn.Close() }})
 	return items
 }
@@ -294,7 +312,7 @@ func c16(c *wk.Ctx) {
 		for v := 0; v < c.Pick(1, 4); v++ {
 			if c.Mine(idx) {
 				c.Begin(idx, "single "+cat[i].Name)
-				c16case(c, idx, c.Rand(idx), []c16item{cat[i]}, v)
+				c16case(c, idx, c.Rand(idx), []c16item{cat[i]}, i+v)
 			}
 			idx++
 		}
@@ -341,7 +359,11 @@ func c16(c *wk.Ctx) {
 }
 
 func c16case(c *wk.Ctx, idx int, r *rand.Rand, seq []c16item, variant int) {
-	e, err := newRPCEnv(c, idx, r, envOpts{Handler: func(e *rpcEnv, p pendingReq, in *mtp.Inner) bool {
+	var holdNext int32
+	e, err := newRPCEnv(c, idx, r, envOpts{NoWarnings: variant%5 == 4, Handler: func(e *rpcEnv, p pendingReq, in *mtp.Inner) bool {
+		if atomic.CompareAndSwapInt32(&holdNext, 1, 0) {
+			return true // swallowed: this request is in flight when the connection goes away
+		}
 		e.sendGroup(p.conn, [][]byte{e.resultBody(p, wrapOpts{})}, []uint64{p.uid}, false)
 		e.mu.Lock()
 		e.pending = append(e.pending[:0], p) // remember the last answered request
@@ -354,7 +376,13 @@ func c16case(c *wk.Ctx, idx int, r *rand.Rand, seq []c16item, variant int) {
 	}
 	defer e.close()
 	var handled int32
-	if variant%2 == 1 {
+	switch variant % 4 {
+	case 1:
+		e.m.AddCustomServerRequestHandler(func(i interface{}) bool { atomic.AddInt32(&handled, 1); return true })
+	case 2: // a handler that declines everything
+		e.m.AddCustomServerRequestHandler(func(i interface{}) bool { atomic.AddInt32(&handled, 1); return false })
+	case 3: // one that declines, then one that accepts
+		e.m.AddCustomServerRequestHandler(func(i interface{}) bool { return false })
 		e.m.AddCustomServerRequestHandler(func(i interface{}) bool { atomic.AddInt32(&handled, 1); return true })
 	}
 	var reconnects int32
@@ -407,8 +435,24 @@ func c16case(c *wk.Ctx, idx int, r *rand.Rand, seq []c16item, variant int) {
 		if it.raw != nil {
 			before := func() int32 { rmu.Lock(); defer rmu.Unlock(); return reconnects }()
 			plainBefore := c16plainFrames(e)
+			switch it.Name {
+			case "close-with-request-in-flight":
+				// a request the server never answers is waiting when the connection goes away; what becomes of THAT
+				// call is not part of the statement (it is left behind), what is: requests issued afterwards complete
+				atomic.StoreInt32(&holdNext, 1)
+				uid := uidFor(r, "object", used)
+				go func() { wk.Guard(func() { e.doCall(9, uid, "object", false) }) }()
+				for w := 0; w < 500 && atomic.LoadInt32(&holdNext) == 1; w++ {
+					time.Sleep(10 * time.Millisecond)
+				}
+			case "close-then-drop-next-connection":
+				atomic.StoreInt32(&e.srv.DropAccepted, 1)
+			}
 			it.raw(cn)
-			if it.Name == "close" {
+			if strings.HasPrefix(it.Name, "close") {
+				if it.Name == "close-then-drop-next-connection" {
+					before++ // two reconnects are needed
+				}
 				// "later requests" means later than the reconnect: wait for the reconnect.done hook (bounded)
 				ok := false
 				for w := 0; w < 400; w++ {
@@ -457,9 +501,10 @@ func c16case(c *wk.Ctx, idx int, r *rand.Rand, seq []c16item, variant int) {
 	if !probe("after") {
 		return
 	}
-	if variant%2 == 1 {
+	if variant%4 != 0 {
 		c.Count("custom_handler.calls", int64(atomic.LoadInt32(&handled)))
 	}
+	c.Count(fmt.Sprintf("variant.handler=%d.warnings=%v", variant%4, variant%5 != 4), 1)
 	e.w.mu.Lock()
 	c.Count("warnings.surfaced", int64(len(e.w.warns)))
 	e.w.mu.Unlock()
